@@ -20,6 +20,10 @@ const P: &str = "C18";
 // ---- generation -------------------------------------------------------------------------------
 
 fn gen_bits(rng: &mut Prng, big: bool) -> u64 {
+    if big && rng.chance(1, 6) {
+        // far beyond any internal block size: 32-bit word counts that are odd / even / powers of two
+        return *rng.pick(&[32_768u64, 32_769, 32_800, 32_801, 65_536, 65_567, 40_033, 70_001]);
+    }
     match rng.below(12) {
         0 => 0,
         1 => 1,
@@ -286,7 +290,9 @@ pub fn gen(rng: &mut Prng, plan: &mut Plan) {
         }
     }
     let fail_at: i128 = if rng.chance(1, 12) { rng.below(6) as i128 } else { -1 };
-    plan.cfg = Step::new("cfg").i("fail_at", fail_at).l32("words", &words);
+    // a long stuck-at-ones fault in front of everything: tens of thousands of rejected candidates, then healing
+    let stuck: i128 = if rng.chance(1, 150) { *rng.pick(&[4i128 * 70_000, 4 * 140_001, 4 * 300_000]) } else if rng.chance(1, 30) { 4 * rng.range(1, 3000) as i128 } else { 0 };
+    plan.cfg = Step::new("cfg").i("fail_at", fail_at).i("stuck", stuck).l32("words", &words);
     plan.steps = steps;
 }
 
@@ -353,6 +359,10 @@ pub fn exec(plan: &Plan) -> RunResult {
     let mut dg = Digest::new();
     let words = plan.cfg.list32("words");
     let mut rng = SimRng::from_words(&words);
+    rng.stuck_ones = plan.cfg.us("stuck");
+    if rng.stuck_ones > 0 {
+        res.fault("rng.stuck_ones");
+    }
     let fail_at = plan.cfg.int("fail_at");
     if fail_at >= 0 {
         rng.fail_at = fail_at as u64;
